@@ -25,7 +25,16 @@ def load_sidecars(names=None):
         spec = importlib.util.spec_from_file_location(f"contracts_{mod}", path)
         m = importlib.util.module_from_spec(spec)
         sys.modules[spec.name] = m
-        spec.loader.exec_module(m)
+        try:
+            spec.loader.exec_module(m)
+        except Exception as ex:
+            # a broken side-car must not take the other properties' checks down; the property that needs it
+            # fails closed (its contracts are missing -> CHECKER-ERROR)
+            if names is not None:
+                raise
+            print(f"warning: side-car {mod} cannot be imported: {type(ex).__name__}: {ex}", file=sys.stderr)
+            api.REGISTRY.clear()
+            continue
         cs = list(api.REGISTRY)
         for c in cs:
             c.sidecar = path
